@@ -446,6 +446,8 @@ func checkC18(p *Prog, r *Report) {
 	// parser state of the raw-file markers ([APPEND] applies from the marker to the end of its table /
 	// of the file): replaced exactly under the audited conditions
 	ruleStickyState(p, r, "C18", map[string]bool{"cisco": true, "linux": true}, 6)
+	r.rule("R18.8", "What cannot be merged ends in an error under exactly the audited conditions: the abort and warning sites of the merge code (command not supported in raw, name clash, object referenced a second time, chain redefined from raw, unused raw objects) and the bookkeeping of referenced objects keep their audited controlling conditions (tables/guards.tsv rows listing C18).")
+	ruleGuardTable(p, r, "R18.8", "C18")
 	ruleLoadOrder(p, r)
 	r.Trusted = []string{"go/ssa, call graph"}
 	r.NotDec = "positions of prepend/append in merged lists beyond the boundary guard; relative order inside each part"
